@@ -837,6 +837,33 @@ func (se *specEnv) evalCall(n *ast.CallExpr) Val {
 				return Val{term: fmt.Sprintf("(%s %s)", id.Name, strings.Join(as, " ")), typ: rt}
 			}
 		}
+		// a function declared `functional` in its contract may be named in clauses:
+		// it denotes the uninterpreted function that summarises its calls
+		for key, c := range e.contracts {
+			if c.Functional && (c.Fn == id.Name || strings.HasSuffix(c.Fn, ")."+id.Name)) && se.pkg != nil && c.Pkg == se.pkg.Path() {
+				var callee *ssa.Function
+				for fn2 := range e.fnByKey(key) {
+					callee = fn2
+				}
+				if callee == nil {
+					break
+				}
+				sym := "uff_" + mangle(shortFn(callee))
+				var as, ss []string
+				for i := range n.Args {
+					a := se.coerce(arg(i), callee.Params[i].Type())
+					as = append(as, a.term)
+					ss = append(ss, e.sc.sortOf(callee.Params[i].Type()))
+				}
+				rt := callee.Signature.Results().At(0).Type()
+				if !e.declared[sym] {
+					e.declared[sym] = true
+					e.decls = append(e.decls, fmt.Sprintf("(declare-fun %s (%s) %s)", sym, strings.Join(ss, " "), e.sc.sortOf(rt)))
+					e.noteAssumed("functional: the result of " + shortFn(callee) + " depends only on its arguments")
+				}
+				return Val{term: "(" + sym + " " + strings.Join(as, " ") + ")", typ: rt}
+			}
+		}
 		if pd, ok := e.preds[id.Name]; ok {
 			if len(pd.params) != len(n.Args) {
 				panic("spec: wrong number of arguments to " + id.Name)
